@@ -6,3 +6,23 @@ reg("C20",
     "Every generated add/remove/draw/contains history is executed on a DrawSet and on a model set; len, iteration, "
     "membership agree after every step and an index sweep through the scripted RNG shows every member drawable. " + EXPL,
     "trusts Python's list/set as the model, and that DrawSet.draw takes its randomness from the stdlib random module")
+
+reg("C01",
+    "property-based testing (Hypothesis) with journalling build callbacks; multiset identity oracle; seeded and scripted RNG schedules",
+    "For every generated (joint degree sequence, motif configuration, algorithm, construction path, RNG schedule) the "
+    "journal of callback calls is compared with the requested sequence: instance counts, slot sizes, per-orbit stub "
+    "multisets, untouched input, carried-through sequence, network node/edge sets. " + EXPL,
+    "trusts the journalling wrappers and networkx; RNG outcomes are explored by seeds and generated integer scripts, not exhaustively")
+
+reg("C02",
+    "property-based testing (Hypothesis); oracle = callback journal vs. the three columns grouped by motif id",
+    "Column lengths, pair-typed edges, contiguous unique motif ids equal to the journalled callback returns, and "
+    "names per edge are checked on every generated case incl. bare-edge, two-edge and k-edge motifs. " + EXPL,
+    "bare-edge callbacks are paired with bare-string names (suite convention); network variant checked through edge attributes")
+
+reg("C04",
+    "property-based testing (Hypothesis): forward / backward / round-trip oracles on generated and synthetic edge lists",
+    "Node set, annotations, pair<->edge equivalence, unique-pair attributes, reverse conversion and round trip are "
+    "compared with independent dictionary snapshots on generator-produced and synthetic edge lists with self-loops, "
+    "repeated pairs and isolated vertices. " + EXPL,
+    "for repeated pairs only membership of the carried (name,id) among the candidate rows is asserted")
